@@ -467,11 +467,67 @@ func tlsMitmUnit(libIsClient bool) harness.Unit {
 	}}
 }
 
+// cacheHistoryUnit: a verifying client with a session cache (capacity 1..2) talks to two servers
+// with DIFFERENT certified names; every history of connect(name i, server j) up to the depth bound.
+// Whatever was cached, evicted or resumed before, a connection completes exactly when the answering
+// server's certificates are valid for the requested name (i == j): resumption must never stand in
+// for verification of another identity.
+func cacheHistoryUnit(capacity, depth int) harness.Unit {
+	return harness.Unit{Name: fmt.Sprintf("client-cache-histories/cap%d/depth%d", capacity, depth), Run: func(c *harness.Ctx) {
+		p := tlsk.Get()
+		names := []string{tlsk.ServerName, "other.example.test"}
+		mkServers := func() []*gmtls.Config {
+			var out []*gmtls.Config
+			for j, certs := range [][]gmtls.Certificate{{p.Sign, p.Enc}, {p.SignWrongName, p.EncWrongName}} {
+				sc := &gmtls.Config{GMSupport: &gmtls.GMSupport{}, Certificates: certs, Time: tlsk.FixedTime, Rand: wire.NewRand(byte(70 + j)),
+					CipherSuites: []uint16{gmtls.GMTLS_ECC_SM4_CBC_SM3, gmtls.GMTLS_ECC_SM4_GCM_SM3}}
+				sc.SetSessionTicketKeys([][32]byte{{byte(40 + j)}})
+				out = append(out, sc)
+			}
+			return out
+		}
+		total := 1
+		for i := 0; i < depth; i++ {
+			total *= 4
+		}
+		for code := 0; code < total; code++ {
+			servers := mkServers()
+			cache := gmtls.NewLRUClientSessionCache(capacity)
+			hist := ""
+			c.Add("evaluations", 1)
+			c.DistinctS("nontrivial", fmt.Sprintf("cache-history/%d/%d", capacity, code))
+			for x, i := code, 0; i < depth; i, x = i+1, x/4 {
+				ni, sj := x%2, (x/2)%2
+				if i > 0 {
+					hist += "; "
+				}
+				hist += fmt.Sprintf("connect(name %d, server %d)", ni, sj)
+				cc := &gmtls.Config{GMSupport: &gmtls.GMSupport{}, RootCAs: p.Roots, ServerName: names[ni], Time: tlsk.FixedTime, Rand: wire.NewRand(byte(80 + i)), ClientSessionCache: cache}
+				o := run(cc, servers[sj], nil)
+				tag := fmt.Sprintf("client cache capacity %d, history [%s]", capacity, hist)
+				if crashOf(c, "both", "client-cache-history", tag, o) {
+					break
+				}
+				want := ni == sj
+				if o.C.Complete != want {
+					if want {
+						c.Violate("cache-history:genuine-server-refused", fmt.Sprintf("[%s] the last connection fails although the server is certified for the requested name: %s", tag, o.Describe()), nil, tag)
+					} else {
+						c.Violate("cache-history:accepts-server-certified-for-another-name", fmt.Sprintf("[%s] the client completes (resumed=%v) with a server that is certified for another name only: %s", tag, o.C.DidResume, o.Describe()), nil, tag)
+					}
+					break
+				}
+			}
+		}
+		c.Sample(fmt.Sprintf("every history of %d connect(name i, server j) steps with a client session cache of capacity %d", depth, capacity))
+	}}
+}
+
 // Prop registers C08.
 var Prop = &harness.Prop{
 	ID:          "C08",
 	Level:       "fault_enumeration",
-	Rule:        "attacker catalogue applied exhaustively: (A) malicious peers expressed through configuration - 16 server identities (wrong signing key, wrong decryption key, untrusted/expired/not-yet-valid/wrong-name/wrong-usage/swapped/duplicated/RSA certificates, another server's identity), client clock and requested-name variations, wrong root pool, against a verifying library client; 5 client identities (untrusted, expired, wrong EKU, CertificateVerify by another key, server certificate) and no certificate x 5 ClientAuth policies against a library server, acceptance predicted per policy; both GMSSL suites. (B) man in the middle between two honest library endpoints (server-only and mutual authentication, both suites): at EVERY plaintext handshake message of both directions every byte flipped, the message dropped, duplicated, truncated, replaced by the same message of another session, reordered with its successor; the same byte flips on TLS 1.2 with Go's crypto/tls as the honest peer in each role. (C) a keyed scripted peer (gmref) that computes Finished over the transcript that really happened, so only the identity proof is wrong: as server against a verifying library client - ServerKeyExchange omitted (with and without the signing key), signed with the encryption key / an unrelated key / d=1, over swapped or foreign randoms, over the signing or a foreign encryption certificate, without the length prefix, without Z_A, r=0, empty, trailing byte; guessed pre-master secret; untrusted/expired/wrong-name certificates with their keys; one certificate, duplicated, swapped; 18 wrong Finished values (each byte, other label, 11/13/0 bytes, shorter transcripts); as client against a library server under each ClientAuth policy - CertificateVerify omitted, by other keys, over other transcripts, malformed; untrusted/expired/wrong-EKU certificates with valid proofs; pre-master secrets of 47/49/1 bytes or encrypted to the signing key; the same Finished cases. Oracle: the attacked endpoint aborts; never both complete; genuine identities (controls) complete. Pairs: for every ordered pair (A,B) of scripted-server cases, A then B against ONE client Config: B's verdict must equal B's verdict on a fresh Config (nothing a previous peer did may change whom the client trusts); likewise all ordered pairs of scripted-client cases on one server Config (RequireAndVerifyClientCert; thorough: every requesting policy). Distinct/non-trivial = distinct case labels.",
+	Rule:        "attacker catalogue applied exhaustively: (A) malicious peers expressed through configuration - 16 server identities (wrong signing key, wrong decryption key, untrusted/expired/not-yet-valid/wrong-name/wrong-usage/swapped/duplicated/RSA certificates, another server's identity), client clock and requested-name variations, wrong root pool, against a verifying library client; 5 client identities (untrusted, expired, wrong EKU, CertificateVerify by another key, server certificate) and no certificate x 5 ClientAuth policies against a library server, acceptance predicted per policy; both GMSSL suites. (B) man in the middle between two honest library endpoints (server-only and mutual authentication, both suites): at EVERY plaintext handshake message of both directions every byte flipped, the message dropped, duplicated, truncated, replaced by the same message of another session, reordered with its successor; the same byte flips on TLS 1.2 with Go's crypto/tls as the honest peer in each role. (C) a keyed scripted peer (gmref) that computes Finished over the transcript that really happened, so only the identity proof is wrong: as server against a verifying library client - ServerKeyExchange omitted (with and without the signing key), signed with the encryption key / an unrelated key / d=1, over swapped or foreign randoms, over the signing or a foreign encryption certificate, without the length prefix, without Z_A, r=0, empty, trailing byte; guessed pre-master secret; untrusted/expired/wrong-name certificates with their keys; one certificate, duplicated, swapped; 18 wrong Finished values (each byte, other label, 11/13/0 bytes, shorter transcripts); as client against a library server under each ClientAuth policy - CertificateVerify omitted, by other keys, over other transcripts, malformed; untrusted/expired/wrong-EKU certificates with valid proofs; pre-master secrets of 47/49/1 bytes or encrypted to the signing key; the same Finished cases. Oracle: the attacked endpoint aborts; never both complete; genuine identities (controls) complete. Client-cache histories: a verifying client with a session cache of capacity 1 and 2 and two servers certified for different names, every history of connect(name i, server j) to depth 4 (thorough 5): completion exactly when the answering server is certified for the requested name. Pairs: for every ordered pair (A,B) of scripted-server cases, A then B against ONE client Config: B's verdict must equal B's verdict on a fresh Config (nothing a previous peer did may change whom the client trusts); likewise all ordered pairs of scripted-client cases on one server Config (RequireAndVerifyClientCert; thorough: every requesting policy). Distinct/non-trivial = distinct case labels.",
 	Assumptions: []string{"the scripted peer is the independent reference implementation gmref (own codecs, PRF, SM2/SM3/SM4 from the reference packages); its honest flows are validated against the library in both roles by the control cases of every unit"},
 	Bounds: func(tier string) string {
 		if tier == "thorough" {
@@ -485,6 +541,11 @@ var Prop = &harness.Prop{
 			u = append(u, mitmUnit(s, false), mitmUnit(s, true))
 		}
 		u = append(u, tlsMitmUnit(true), tlsMitmUnit(false))
+		chd := 4
+		if tier == "thorough" {
+			chd = 5
+		}
+		u = append(u, cacheHistoryUnit(1, chd), cacheHistoryUnit(2, chd))
 		for _, s := range suites {
 			u = append(u, refServerUnit(s), refClientUnit(s))
 			for p := 0; p < 8; p++ {
